@@ -185,7 +185,7 @@ def _bounds(ctx):
         "g_hs": dict(MaxEdits=1),                                                               # all three key orders, one edit
         "g_hs2": dict(MaxEdits=2, Ranks="RanksOne"),                                            # one key order, two edits
         "g_stream": dict(MaxFrames=2, MaxReads=2, MaxEdits=1, W="WOneWayQ", R="ROneWayQ"),      # both key orders
-        "g_full": dict(MaxFrames=2, MaxReads=1, MaxEdits=1),
+        "g_full": dict(MaxFrames=2, MaxReads=1, MaxEdits=1, MaxFaults=0),   # late transport errors are in g_stream
         "sim": 800, "random": 1500, "random_big": 100,
     }
 
